@@ -17,7 +17,12 @@ RULE = (
     "its wall clock, so that parent and worker processes see the same specification) on the word classes of example.py "
     "with the packs of harness/universes/words_ext.py (symmetries, inferral, factories, verification packs, iterative) x "
     "{RuleDB, RuleDBForgetStrategy, RuleDBForest with and without reverse rules} x random proof-tree seeds, on word classes "
-    "WITH statistics (harness/universes/words_stats_c20.py: letter counts, several names for one statistic) and on plane "
+    "WITH statistics (harness/universes/words_stats_c20.py: letter counts, several names for one statistic, 1-3 statistics, "
+    "indexed names k_1 k_2 .., names in both alphabetical orders; 14 packs: every rule keeps the names / permutes them "
+    "cyclically / exchanges two / only some children permute / children list their statistics in another order / "
+    "factors re-index k_i -> k_(i-1) / name-exchanging relabellings as equivalences (equivalence paths whose composed "
+    "dictionary permutes names) / ready rules with a foreign parent used in reverse (fallback equation) / products "
+    "with >= 3 factors) and on plane "
     "trees counted by leaves, also planted on 1-5 extra leaves (non-linear systems: sympy.solve returns several branches "
     "that agree on the first terms); every equation of get_equations() is walked structurally (func/args) into a canonical "
     "form and compared with the model's equation for the descriptor of the same rule, and both sides are evaluated on "
@@ -26,11 +31,21 @@ RULE = (
     "coefficients to order 30 against count_objects_of_size and brute force, and the identity check (the returned function "
     "extends to a solution of the whole system that satisfies every equation identically, is analytic at 0 and vanishes "
     "below every class's minimum size); with statistics get_genf must refuse (NotImplementedError). (rule, 55%) single rules "
-    "built directly: union / product / relabelling strategies with statistics in the modes keep, merge (several parent "
-    "parameters -> one child parameter), rename, in every form: forward, reverse w.r.t. each child (Complement/Quotient own "
+    "built directly: union / product (2 factors, and >= 3 factors with the non-atom first, last, in the middle) / "
+    "relabelling strategies with statistics in the modes keep, merge (several parent parameters -> one child parameter), "
+    "rename to new names, and NAME-PERMUTING modes in which a child parameter carries the name of a DIFFERENT parent "
+    "parameter, so that get_equation's substitution has to be simultaneous: cyclic shift, transposition, chains k_i -> "
+    "k_(i-1) and k_i -> k_(i+1) with one new name (partial overlap), merge onto another parent's name, reversed argument "
+    "order, a different mode per child, and explicit random injections of the parent's names into (parent names + new "
+    "names) per child; in every form: forward, reverse w.r.t. each child (Complement/Quotient own "
     "equation without parameters, fallback to the original equation with parameters), EquivalenceRule, its reverse, "
-    "EquivalencePathRule over 1-3 relabelling steps forwards, backwards and mixed. Shapes of the three known findings are "
-    "generated only while they are listed as open in known_findings.json. Non-trivial: spec case with >= 3 equations "
+    "EquivalencePathRule over 1-3 relabelling steps (any of the modes above; composed permutations and their inverses) "
+    "forwards, backwards and mixed. The oracle substitutes the brute-force series of each class POSITIONALLY for the "
+    "arguments of every F_i in the emitted equation and compares all coefficients up to the order, so a wrong argument "
+    "shows at a low-order coefficient; the run fails unless name-permuting dictionaries were reached (equation emitted "
+    "and evaluated) in every rule form, in single rules and inside specifications. Shapes of the three known findings are "
+    "generated only while they are listed as open in known_findings.json (integer modes 1/3 only; name-permuting, "
+    "per-child and explicit modes never match a known finding). Non-trivial: spec case with >= 3 equations "
     "incl. a product, reverse or path equation, all evaluated; rule case whose equation is emitted and has >= 3 non-zero "
     "coefficients up to the model's order; distinct = distinct case descriptors."
 )
@@ -46,7 +61,10 @@ LEVEL_TEXT = (
     "code emits (Sub directly; Div read as the cross-multiplied identity; with parameters: the fallback to the "
     "original rule's equation), for equivalence rules/paths (as unions with the composed dictionary), for atoms and "
     "empty classes, holds coefficient-wise up to order N when every F_label is read as the class's true series, "
-    "provided the rule is genuine (positional re-keying of the children's term tables, as get_terms does). "
+    "provided the rule is genuine (positional re-keying of the children's term tables, as get_terms does). Variables "
+    "of the model are NAMES (sympy symbols are global by name) and the model's subs is the simultaneous substitution "
+    "of subs(..., simultaneous=True); the dictionaries are arbitrary, also name-permuting (a child parameter named like "
+    "another parent parameter). "
     "C20_unique_series: for a univariate specification of union/product/complement/atom/empty rules that pumps "
     "w.r.t. the declared shifts (product shifts re-translated from CartesianProductStrategy.shifts), any two "
     "families of series that satisfy all emitted equations at every order and vanish below the classes' minimum "
@@ -82,7 +100,9 @@ ASSUMPTIONS = [
     "children's true term tables (strategy contract; checked by brute force on every generated rule)",
     "extra_parameters dictionaries map parent parameters to parameters of the child, every child parameter is the image "
     "of some parent parameter (otherwise the emitted equation keeps the child's own variable free: known finding), "
-    "parameter names of one class are distinct and differ from x",
+    "parameter names of one class are distinct and differ from x; NO assumption relates the names of the child to "
+    "the names of the parent (they may coincide, be permuted, or overlap partially: Examples "
+    "C20_ex_union_swapped_names, C20_ex_product_shifted_names)",
     "product rules: no two parent parameters are mapped to the same child parameter (otherwise known finding)",
     "C20_unique_series: univariate, no Quotient rules, solutions vanish below the classes' minimum sizes",
 ]
@@ -178,7 +198,7 @@ def _search(case):
         s = _W().searcher(cfg)
     elif u == "stats":
         S = _S()
-        s = CombinatorialSpecificationSearcher(S.stat_start(cfg["start"]), S.stat_pack(), ruledb=_W().make_ruledb(cfg["ruledb"]))
+        s = CombinatorialSpecificationSearcher(S.stat_start(cfg["start"]), S.stat_pack(cfg.get("spack", "keep")), ruledb=_W().make_ruledb(cfg["ruledb"]))
     else:
         S = _S()
         kind = ("planted", cfg["planted"]) if cfg.get("planted") else "tree"
@@ -197,7 +217,8 @@ def _build_rule(case):
     S = _S()
     r = case["rule"]
     parent = _stat_class(r["class"])
-    strat = {"expansion": S.StatExpansion, "remove_front": S.StatRemoveFront, "relabel": S.StatRelabel}[r["strategy"]]
+    strat = {"expansion": S.StatExpansion, "remove_front": S.StatRemoveFront, "relabel": S.StatRelabel,
+             "remove_front_lw": lambda mode: S.StatRemoveFrontLW(mode, r.get("rest_pos", 0))}[r["strategy"]]
     form = r["form"]
     if form == "path":
         # forward chain c0 -> c1 -> .. -> ck of relabelling equivalences, then
@@ -220,7 +241,12 @@ def _build_rule(case):
         else:
             back = min(r["back"], len(fwd_rules) - 1)
             chain = fwd_rules + [e.to_reverse_rule(0) for e in list(reversed(fwd_rules))[:back]]
-        return EquivalencePathRule(chain), ""
+        path = EquivalencePathRule(chain)
+        if path.children[0] == path.comb_class:
+            # the relabellings returned to the start: a class is never its own child in a specification
+            # (sympy would fold F = F into True)
+            return None, "path returns to its start"
+        return path, ""
     st = strat(r["mode"])
     if st.decomposition_function(parent) is None:
         return None, "strategy does not apply"
@@ -393,6 +419,14 @@ def encode(case):
     return [N, V, classes, opaque, rules]
 
 
+def encode_with(case, res):
+    """encode(case) as computed next to the implementation run (worker process): the parent process does not
+    repeat the search and the brute-force tables of every case serially"""
+    if isinstance(res, dict) and "enc" in res:
+        return res["enc"]
+    return encode(case)
+
+
 # ----------------------------------------------------------------------------- canonical form of sympy trees
 BAD = ((((9, 9), 1),), 1)
 
@@ -495,14 +529,11 @@ def _series_poly(cls, args, M):
     """sum over the class's objects up to size M of  args[0]^size * prod args[1+j]^param_j"""
     import sympy
 
-    res = sympy.Integer(0)
+    terms = []
     for n in range(M + 1):
         for params, cnt in truth(cls, n).items():
-            t = sympy.Integer(cnt) * args[0] ** n
-            for a, p in zip(args[1:], params):
-                t *= a ** p
-            res += t
-    return res
+            terms.append(sympy.Mul(sympy.Integer(cnt), args[0] ** n, *[a ** p for a, p in zip(args[1:], params)]))
+    return sympy.Add(*terms)
 
 
 def evaluate(b, eq, M):
@@ -535,6 +566,8 @@ def evaluate(b, eq, M):
             nums.append(f)
     L = repl(sympy.Mul(lhs, *dens))
     R = repl(sympy.Mul(*nums))
+    # a symbol that is no parameter of any class involved: compared as one more variable
+    syms = syms + sorted((L.free_symbols | R.free_symbols) - set(syms), key=str)
 
     def coeffs(e):
         e = sympy.expand(e)
@@ -552,6 +585,26 @@ def evaluate(b, eq, M):
     return coeffs(L), coeffs(R)
 
 
+def _name_permuting(rule):
+    """1 if some dictionary the equation of this rule is built from maps a parameter onto the name of a
+    DIFFERENT parameter of the same parent which is itself re-named (swap, cycle, chain: replacing the names
+    one after the other would re-write an already replaced name), else 0"""
+    from comb_spec_searcher.strategies.rule import ReverseRule, VerificationRule
+
+    if isinstance(rule, VerificationRule):
+        return 0
+    src = rule.original_rule if isinstance(rule, ReverseRule) else rule     # fallback: the original rule's maps
+    try:
+        eps = src.constructor.extra_parameters
+    except Exception:  # pylint: disable=broad-except
+        return 0
+    for ep in eps:
+        # p -> c where c is also the name of a parent parameter that is itself mapped to something else
+        if any(c in ep and c != p and ep[c] != c for p, c in ep.items()):
+            return 1
+    return 0
+
+
 def impl(case):
     import sympy
 
@@ -566,9 +619,11 @@ def impl(case):
     out = []
     from comb_spec_searcher.strategies.rule import VerificationRule
 
+    res["perm"] = []
     for r, eq in zip(b.rules, b.eqs):
         d = describe(r, b.label, b.vid)
         res["kinds"].append(d[0])
+        res["perm"].append(_name_permuting(r))
         if not isinstance(eq, sympy.Equality):
             out.append([3, [], [], [0]])
             res["status"].append(3)
@@ -586,6 +641,9 @@ def impl(case):
         L, R = evaluate(b, eq, N)
         out.append([status, _np_list(nf_sym(eq.lhs, b.vid)), _np_list(rhs_nf), [1, L, R]])
     res["out"] = out
+    # the model's input (descriptors of these very rule objects + brute-force tables), built in the worker
+    # process: see encode_with
+    res["enc"] = encode(case)
     if case.get("genf"):
         res["genf"] = _run_genf(b)
     return res
@@ -717,7 +775,7 @@ def oracle(case, res):
             dl = {tuple(k): v for k, v in L}
             dr = {tuple(k): v for k, v in R}
             bad = sorted(k for k in set(dl) | set(dr) if dl.get(k, 0) != dr.get(k, 0))[0]
-            names = sorted(b.vid, key=lambda k: b.vid[k])
+            names = sorted(b.vid, key=lambda k: b.vid[k]) + ["(foreign symbol)"] * len(bad)
             return "equation %s of the %s rule for %r is not satisfied by the true series: coefficient of %s is %d on the left, %d on the right" % (
                 eq, KINDS[res["kinds"][i]], r.comb_class,
                 "*".join("%s^%d" % (nm, e) for nm, e in zip(names, bad)), dl.get(bad, 0), dr.get(bad, 0))
@@ -730,13 +788,18 @@ def oracle(case, res):
 
 
 def finding_match(case, why):
+    """narrow: the legacy shapes only (integer modes 1 / 3 of the two-factor product / the expansion), and
+    only when the input really has the shape of the finding (two parameters tracking one letter / a letter the
+    parent does not track); name-permuting modes, per-child mode lists and explicit maps never match"""
     if case["kind"] == "spec" and case["cfg"].get("planted", 0) >= 7 and why and "reverse order" in why:
         return "genf-selection-depends-on-solver-order"
     if case["kind"] == "rule" and why and "not satisfied" in why:
         r = case["rule"]
-        if r["strategy"] == "remove_front" and r["mode"] == 1:
+        stats = r["class"]["stats"]
+        letters = [l for _, l in stats]
+        if r["strategy"] == "remove_front" and r["mode"] == 1 and len(set(letters)) < len(letters):
             return "product-equation-parameter-collision"
-        if r["strategy"] == "expansion" and r["mode"] == 3:
+        if r["strategy"] == "expansion" and r["mode"] == 3 and set(r["class"]["alphabet"]) - set(letters):
             return "union-equation-unmapped-child-parameter"
     return None
 
@@ -747,11 +810,72 @@ STAT_CLASSES = [
     ("ab", ["aba"], "ab"), ("", ["aba"], "ab"), ("bab", ["bb"], "ab"), ("", [], "ab"), ("ba", [], "ab"),
     ("", ["abc", "ca"], "abc"), ("ca", ["cc"], "abc"), ("a", ["aa", "ab"], "ab"), ("b", ["ba", "bb"], "ab"),
     ("aab", ["bb", "aaa"], "ab"), ("c", ["aa"], "abc"),
+    # long prefixes: several letters removed at once (>= 3 factors under remove_front_lw)
+    ("bbba", ["aa"], "ab"), ("abab", ["bb"], "ab"), ("cabc", ["aa", "cb"], "abc"), ("bab", ["aab"], "ab"),
 ]
 STAT_SETS = [
     [("k", "a")], [("k", "b")], [("k", "a"), ("j", "a")], [("k", "a"), ("m", "b")], [("k", "a"), ("j", "a"), ("m", "b")],
     [("u", "b"), ("v", "b"), ("w", "b")], [], [("k", "c")], [("k", "a"), ("j", "b"), ("i", "a"), ("h", "b")],
+    # names in both alphabetical orders w.r.t. the letters they track (sympy substitutes in sorted key order),
+    # indexed names, names that are letters themselves
+    [("p", "a"), ("q", "b")], [("q", "a"), ("p", "b")], [("k_1", "a"), ("k_2", "b")], [("k_2", "a"), ("k_1", "b")],
+    [("k_0", "a"), ("k_1", "b"), ("k_2", "c")], [("k_3", "c"), ("k_2", "a"), ("k_1", "b")], [("b", "a"), ("a", "b")],
+    [("k_1", "a"), ("k_2", "a"), ("k_3", "b")], [("r", "b"), ("s", "a"), ("t", "b")],
 ]
+# integer modes of harness/universes/words_stats_c20.py
+LEGACY_MODES = [0, 1, 2]
+PERMUTING_MODES = [4, 5, 6, 7, 8, 9, 10, 11]
+FRESH_NAMES = ["z", "y_0", "k_9"]
+
+
+def _gen_map(rng, stats, merge_ok):
+    """one explicit child naming: per parent statistic a child name ("" = keep the name).  Names come from
+    the parent's own names and a few new ones: a random injection (permutation, chain, partial overlap),
+    optionally (unions) with statistics of one letter merged onto one name"""
+    names = [n for n, _ in stats]
+    k = len(names)
+    x = rng.random()
+    if k == 0 or x < 0.1:
+        return []
+    pool = names + FRESH_NAMES[:rng.randint(0, 2)]
+    new = rng.sample(pool, k)
+    if x < 0.35 and k >= 2:          # a transposition, everything else kept
+        i, j = rng.sample(range(k), 2)
+        new = list(names)
+        new[i], new[j] = names[j], names[i]
+    elif x < 0.5:                    # a permutation of the parent's names
+        new = list(names)
+        rng.shuffle(new)
+    if merge_ok and rng.random() < 0.3:
+        first = {}
+        for i, (_, l) in enumerate(stats):
+            if l in first and rng.random() < 0.7:
+                new[i] = new[first[l]]
+            first.setdefault(l, i)
+    return ["" if c == n and rng.random() < 0.5 else c for c, n in zip(new, names)]
+
+
+def _gen_mode(rng, strategy, stats):
+    """a statistics mode for one strategy application: legacy int / name-permuting int / list of ints per
+    child / explicit maps.  Products never get two parameters merged onto one child parameter here (that is
+    the known finding's own, separately generated, shape)."""
+    product = strategy.startswith("remove_front")
+    dup = len({l for _, l in stats}) < len(stats)
+    ints = LEGACY_MODES + PERMUTING_MODES
+    if product and dup:
+        ints = [m for m in ints if m not in (1, 8)]
+    if strategy == "relabel":
+        ints = [m for m in ints if m != 0]
+    x = rng.random()
+    if x < 0.3:
+        return rng.choice([m for m in ints if m in LEGACY_MODES])
+    if x < 0.6:
+        return rng.choice([m for m in ints if m in PERMUTING_MODES])
+    if x < 0.75 and strategy != "relabel":
+        return [rng.choice(ints) for _ in range(rng.randint(2, 3))]
+    n = 1 if strategy == "relabel" else rng.randint(1, 3)
+    return {"maps": [_gen_map(rng, stats, not product) for _ in range(n)],
+            "rev": [rng.randint(0, 1) for _ in range(rng.randint(1, 2))]}
 
 
 def _gen_rule(rng, findings):
@@ -760,29 +884,29 @@ def _gen_rule(rng, findings):
     cls = {"prefix": p, "patterns": pats, "alphabet": alph, "stats": [list(s) for s in stats]}
     x = rng.random()
     if x < 0.2:
-        steps = [rng.choice([1, 2, 2]) for _ in range(rng.randint(1, 3))]
+        steps = [_gen_mode(rng, "relabel", stats) if rng.random() < 0.8 else rng.choice([1, 2, 2])
+                 for _ in range(rng.randint(1, 3))]
         rule = {"class": cls, "strategy": "relabel", "form": "path", "steps": steps, "mode": 0,
                 "shape": rng.choice(["fwd", "rev", "back"]), "back": rng.randint(1, 2)}
     else:
-        strategy = rng.choice(["expansion", "expansion", "remove_front", "remove_front", "relabel"])
-        mode = rng.choice([0, 1, 2]) if strategy != "relabel" else rng.choice([1, 2])
+        strategy = rng.choice(["expansion", "expansion", "remove_front", "remove_front", "remove_front_lw", "relabel"])
+        form = rng.choice(["fwd", "fwd", "rev", "rev", "equiv", "equiv_rev"])
         if findings and rng.random() < 0.04:
             strategy, mode = rng.choice([("expansion", 3), ("remove_front", 1)])
-        elif strategy == "remove_front" and mode == 1:
-            # merge on a product: only when no two parameters track the same letter (otherwise: known finding stream)
-            if len({l for _, l in stats}) < len(stats):
-                mode = 0
-        form = rng.choice(["fwd", "fwd", "rev", "rev", "equiv", "equiv_rev"])
-        if form in ("rev", "equiv_rev") and rng.random() < 0.35:
-            cls["stats"] = []       # Complement / Quotient emit their own equation only without parameters
+        else:
+            if form in ("rev", "equiv_rev") and rng.random() < 0.3:
+                cls["stats"] = stats = []       # Complement / Quotient emit their own equation only without parameters
+            mode = _gen_mode(rng, strategy, stats)
         rule = {"class": cls, "strategy": strategy, "mode": mode, "form": form, "idx": rng.randint(0, 3)}
+        if strategy == "remove_front_lw":
+            rule["rest_pos"] = rng.randint(0, 2)
     return {"kind": "rule", "rule": rule, "N": 5 if len(alph) == 2 else 4}
 
 
 def _gen_spec(rng, tier, genf_ok, solver_order_known=False):
     W, S = _W(), _S()
     x = rng.random()
-    if x < 0.62:
+    if x < 0.5:
         cfg = W.random_cfg(rng)
         cfg["universe"] = "words"
         cfg.pop("smallest", None)
@@ -794,7 +918,7 @@ def _gen_spec(rng, tier, genf_ok, solver_order_known=False):
         return case
     if x < 0.85:
         cfg = {"universe": "stats", "start": rng.randrange(len(S.STAT_STARTS)), "ruledb": rng.choice(W.RULEDBS),
-               "tree_seed": rng.randrange(1 << 30)}
+               "tree_seed": rng.randrange(1 << 30), "spack": rng.choice(sorted(S.STAT_PACKS))}
         alph = S.STAT_STARTS[cfg["start"]][2]
         case = {"kind": "spec", "cfg": cfg, "N": 5 if len(alph) == 2 else 4}
         if genf_ok and rng.random() < GENF_SHARE[tier]:
@@ -861,16 +985,51 @@ def classify(case, res):
                 tags.append("genf:" + ("returned" if "genf" in g else g.get("exception", "none")))
     else:
         tags.append("form:" + case["rule"]["form"])
-        tags.append("strategy:%s/%d" % (case["rule"]["strategy"], case["rule"]["mode"]))
+        md = case["rule"]["mode"]
+        tags.append("strategy:%s/%s" % (case["rule"]["strategy"], md if isinstance(md, int) else
+                                        "per-child" if isinstance(md, list) else "explicit"))
     if isinstance(res.get("out"), list) and not res["out"]:
         tags.append("not-applicable")
     for k, st in zip(res.get("kinds", []), res.get("status", [])):
         tags.append("eq:" + KINDS[k] + (":notimplemented" if st == 1 else ""))
+    for k, st, pm in zip(res.get("kinds", []), res.get("status", []), res.get("perm", [])):
+        if pm and st == 0:
+            tags.append("perm:" + KINDS[k] + ("@spec" if case["kind"] == "spec" else ""))
+    if case["kind"] == "spec" and case["cfg"]["universe"] == "stats":
+        tags.append("spack:" + case["cfg"].get("spack", "keep"))
     names = set()
     for d in res.get("out") if isinstance(res.get("out"), list) else []:
         if len(d[3]) == 3 and d[3][1] and len(d[3][1][0][0]) > 1:
             names.add("multivariate-evaluated")
     return tags + sorted(names)
+
+
+def _shrink_mode(mode):
+    """simpler statistics modes (never towards the modes 1 / 3 of the known findings unless already there)"""
+    if isinstance(mode, list):
+        for m in mode:
+            yield m
+        for i in range(len(mode)):
+            if len(mode) > 1:
+                yield mode[:i] + mode[i + 1:]
+    elif isinstance(mode, dict):
+        maps, rev = mode.get("maps") or [[]], mode.get("rev") or [0]
+        if any(rev):
+            yield {"maps": maps, "rev": [0]}
+        for i, m in enumerate(maps):
+            if len(maps) > 1:
+                yield {"maps": maps[:i] + maps[i + 1:], "rev": rev}
+            if any(m):
+                yield {"maps": maps[:i] + [[]] + maps[i + 1:], "rev": rev}
+            for j, c in enumerate(m):
+                if c:
+                    yield {"maps": maps[:i] + [m[:j] + [""] + m[j + 1:]] + maps[i + 1:], "rev": rev}
+
+
+def _drop_stat(mode, i):
+    if isinstance(mode, dict):
+        return {"maps": [m[:i] + m[i + 1:] for m in (mode.get("maps") or [[]])], "rev": mode.get("rev") or [0]}
+    return mode
 
 
 def shrink(case):
@@ -880,9 +1039,18 @@ def shrink(case):
             for i in range(len(r["steps"])):
                 if len(r["steps"]) > 1:
                     yield {**case, "rule": {**r, "steps": r["steps"][:i] + r["steps"][i + 1:]}}
+            for i, st in enumerate(r["steps"]):
+                for m in _shrink_mode(st):
+                    yield {**case, "rule": {**r, "steps": r["steps"][:i] + [m] + r["steps"][i + 1:]}}
+        else:
+            for m in _shrink_mode(r["mode"]):
+                yield {**case, "rule": {**r, "mode": m}}
         st = r["class"]["stats"]
         for i in range(len(st)):
-            yield {**case, "rule": {**r, "class": {**r["class"], "stats": st[:i] + st[i + 1:]}}}
+            c = {**r, "class": {**r["class"], "stats": st[:i] + st[i + 1:]}, "mode": _drop_stat(r["mode"], i)}
+            if r["form"] == "path":
+                c["steps"] = [_drop_stat(m, i) for m in r["steps"]]
+            yield {**case, "rule": c}
         if case.get("N", 0) > 2:
             yield {**case, "N": case["N"] - 1}
     else:
@@ -897,6 +1065,8 @@ def shrink(case):
             yield {**case, "cfg": {**cfg, "pack": "base"}}
         if cfg.get("ruledb") != "base":
             yield {**case, "cfg": {**cfg, "ruledb": "base"}}
+        if cfg.get("spack", "keep") != "keep":
+            yield {**case, "cfg": {**cfg, "spack": "keep"}}
         if cfg.get("tree_seed"):
             yield {**case, "cfg": {**cfg, "tree_seed": 0}}
 
@@ -909,7 +1079,13 @@ def extra_checks(ctx):
         for t in set(classify(c, res)):
             tags[t] += 1
     need = ["eq:union", "eq:product", "eq:rev_union", "eq:rev_product", "eq:equiv", "eq:path", "eq:atom", "eq:empty",
-            "multivariate-evaluated", "genf:returned", "universe:trees", "universe:stats"]
+            "multivariate-evaluated", "genf:returned", "universe:trees", "universe:stats",
+            # name-permuting parameter maps (emitted and evaluated equations) in every rule form
+            "perm:union", "perm:product", "perm:rev_union", "perm:rev_product", "perm:equiv", "perm:path",
+            "perm:union@spec", "perm:product@spec"]
+    # (reverse rules with name-permuting dictionaries inside specifications are rare in the random stream: the
+    # corpus cases spec_stats_factory_* guarantee them on every run)
+    need += ["perm:path@spec", "perm:rev_union@spec", "perm:rev_product@spec"]
     if len(ctx.cases) < 150:
         return []
     missing = [t for t in need if not tags.get(t)]
